@@ -86,6 +86,22 @@ func (x *Exec) specCall(c *SpecCtx, e *Expr) (*Val, error) {
 		c2.li = nil
 		c2.inBody = false
 		return x.specEval(c2, e.Args[0])
+	case "local":
+		// local(name): value of a body local in the state being described (exit state in ensures/sets)
+		if len(e.Args) != 1 || e.Args[0].Kind != "ident" {
+			return nil, fmt.Errorf("local(name)")
+		}
+		c2 := *c
+		c2.inBody = true
+		c2.locals = true
+		if a, ok := x.localCell(&c2, e.Args[0].Name); ok {
+			v := c.st.cells[a]
+			if v.Typ == nil {
+				v = retype(v, a.Type().(*types.Pointer).Elem())
+			}
+			return v, nil
+		}
+		return nil, fmt.Errorf("no local named %s is live here", e.Args[0].Name)
 	case "at":
 		// at(L, e): e evaluated in the labelled mid-state L
 		if err := need(2); err != nil {
@@ -328,6 +344,38 @@ func (x *Exec) specCall(c *SpecCtx, e *Expr) (*Val, error) {
 			return scalar(mk("to_real", SReal, as[0].T), nil), nil
 		}
 		return as[0], nil
+	case "ext2":
+		// ext2("pkg.Func", "$i", args...): result i of a multi-result deterministic external function
+		if len(e.Args) < 2 || e.Args[0].Kind != "str" || e.Args[1].Kind != "str" {
+			return nil, fmt.Errorf("ext2(\"key\", \"$i\", args...)")
+		}
+		key, leaf := e.Args[0].Name, e.Args[1].Name
+		fo := x.findExtFunc(key)
+		if fo == nil {
+			return nil, fmt.Errorf("ext2: cannot resolve %s", key)
+		}
+		var idx int
+		if _, err := fmt.Sscanf(leaf, "$%d", &idx); err != nil {
+			return nil, fmt.Errorf("ext2: leaf must be $i")
+		}
+		res := fo.Type().(*types.Signature).Results()
+		if idx >= res.Len() {
+			return nil, fmt.Errorf("ext2: %s has %d results", key, res.Len())
+		}
+		var ts []*Term
+		for _, a := range e.Args[2:] {
+			v, err := x.specEval(c, a)
+			if err != nil {
+				return nil, err
+			}
+			if v.K != VScalar {
+				return nil, fmt.Errorf("ext2: scalar arguments only")
+			}
+			ts = append(ts, v.T)
+		}
+		return buildVal(res.At(idx).Type(), leaf, func(path string, s Sort, _ types.Type) *Term {
+			return x.ufApp("ext."+key+"#"+path, s, ts...)
+		}), nil
 	case "ext":
 		// ext("pkg.Func", args...): the uninterpreted function standing for a deterministic external function
 		// (first result leaf; use ext2("key", "leaf", args...) for other leaves)
@@ -390,6 +438,23 @@ func (x *Exec) specCall(c *SpecCtx, e *Expr) (*Val, error) {
 			return x.ufApp(name, s, ts...)
 		})
 		return v, nil
+	case "headerGet":
+		// headerGet(h, name): first value stored under the canonical name, "" if none (net/http.Header.Get)
+		as, err := evalArgs()
+		if err != nil {
+			return nil, err
+		}
+		mt, ok := as[0].Typ.Underlying().(*types.Map)
+		if !ok {
+			return nil, fmt.Errorf("headerGet: first argument is not a header map")
+		}
+		k := x.strFn(c.st, "canon", as[1].T)
+		v := x.mapGet(c.st, mt, as[0].T, k)
+		first := x.loadElem(c.st, v.F[0].T, intLit(0), types.Typ[types.String], "", types.Typ[types.String])
+		has := tAnd(x.mapHas(c.st, mt, as[0].T, k), tCmp(">", v.F[2].T, intLit(0)))
+		return scalar(tIte(has, first.T, strEmpty), types.Typ[types.String]), nil
+	case "epoch":
+		return intVal(x.timeEpoch()), nil
 	case "unixSeconds":
 		as, err := evalArgs()
 		if err != nil {
@@ -402,6 +467,15 @@ func (x *Exec) specCall(c *SpecCtx, e *Expr) (*Val, error) {
 			return nil, err
 		}
 		return scalar(x.ufApp("hex", SStr, as[0].T), types.Typ[types.String]), nil
+	case "hexdecOf":
+		as, err := evalArgs()
+		if err != nil {
+			return nil, err
+		}
+		x.axiomsOn["hexdec"] = true
+		x.D.declareFun("uf.hex", []Sort{SStr}, SStr)
+		x.D.declareFun("uf.hexvalid", []Sort{SStr}, SBool)
+		return scalar(x.ufApp("hexdec", SStr, as[0].T), nil), nil
 	case "sha256Of":
 		as, err := evalArgs()
 		if err != nil {
